@@ -232,7 +232,7 @@ def analyse(ctx, replace=None, only=None):
     f = fns["aws_ring_buffer_release"]
     st_ = [e for e in f.calls("aws_atomic_store_ptr_explicit")]
     zs = [e for e in f.calls({"memset", "__builtin_memset"})]
-    R.check(len(st_) == 1 and f.show(RU.arg(f, st_[0].node, 1)) == "(buf->buffer + buf->capacity)", "MEMORY-ORDER", "release:publishes-end-of-buffer", where(f, st_[0]) if st_ else f.name,
+    R.check(len(st_) == 1 and f.show(RU.arg(f, st_[0].node, 1), alias=True) == "(buf->buffer + buf->capacity)", "MEMORY-ORDER", "release:publishes-end-of-buffer", where(f, st_[0]) if st_ else f.name,
             "tail := buffer + capacity of the released buffer", "release publishes %s" % (f.show(RU.arg(f, st_[0].node, 1)) if st_ else None))
     R.check(len(zs) == 1 and st_ and ev_dominates(f, st_[0], zs[0]), "MEMORY-ORDER", "release:publish-before-zeroing", where(f, zs[0]) if zs else f.name, "the end is read and published before the caller's buffer is zeroed",
             "the buffer is zeroed before its end is published (tail would be set to NULL+0)")
